@@ -57,6 +57,10 @@ class LZWDecoder:
         elif code == 257:
             pass
         elif not self.prevbuf:
+            if code >= len(self.table):
+                # no table yet (missing clear-table code), or a code that
+                # cannot be the first one after a clear-table code
+                raise CorruptDataError
             x = self.prevbuf = cast(bytes, self.table[code])  # assume not None
         else:
             if code < len(self.table):
